@@ -68,6 +68,9 @@ func groupingAlphabet(gt string, L [][]string, fresh []string) []EOp {
 		EOp{Kind: "upds", Sec: "g", PType: gt, Rules: [][]string{L[0], L[1]}, News: [][]string{L[2], L[0]}},
 		// an unchanged pair first: the pairing of old and new rules must not shift
 		EOp{Kind: "upds", Sec: "g", PType: gt, Rules: [][]string{L[0], L[1]}, News: [][]string{L[0], L[3]}},
+		// two pairs onto one new rule / one old rule named twice: refused as a whole, nothing may change
+		EOp{Kind: "upds", Sec: "g", PType: gt, Rules: [][]string{L[0], L[1]}, News: [][]string{fresh, fresh}},
+		EOp{Kind: "upds", Sec: "g", PType: gt, Rules: [][]string{L[0], L[0]}, News: [][]string{fresh, L[3]}},
 		EOp{Kind: "rmf", Sec: "g", PType: gt, FI: 0, Vals: []string{L[0][0]}},
 		EOp{Kind: "rmf", Sec: "g", PType: gt, FI: 1, Vals: []string{L[1][1]}},
 		EOp{Kind: "clear"}, EOp{Kind: "load"}, EOp{Kind: "save"},
@@ -90,7 +93,7 @@ func runC05(c *Ctx) {
 	if c.Thorough() {
 		dDom, d2 = depth, 3
 	}
-	c.Rule = fmt.Sprintf("all histories over %d grouping-policy calls (single, batch, Ex, update, batch update, filtered removal, ClearPolicy, LoadPolicy, SavePolicy) on a 3-name universe with an auto-saving adapter: depth <= %d for the plain manager, depth <= %d for a plain manager installed with SetRoleManager on the empty policy (with Enforce probes), depth <= %d for the domain manager (2 domains), depth <= %d for two role definitions (g, g2; the calls of both, single add/remove from one name only, no SavePolicy); plain and domain histories that leave two or more rules listed end with the listing handed straight back to the batch removal; after every call HasLink over the whole universe, GetRoles, GetUsers and the listed grouping rules are compared with the Lean model and with reachability through the listed rules (spec); a reload that a failing role manager rejects at its 1st..4th link must leave the graph mirroring the listed rules (implementation only); a conditional role definition (g = _, _, (_, _)): all histories of depth <= %d over 12 calls (single / batch add and remove, filtered removal, update, policy batches, ClearPolicy, BuildRoleLinks), live vs rebuilt from the listed rules and vs a plain RBAC model holding the same rules, on the implementation, and link chains around the hierarchy limit plus grouping calls through the enforcer compared with the Lean model of the conditional managers (case condrm); plus seeded random histories incl. over-long rules; non-trivial = some call changed the graph and some call was refused; distinct = whole history", len(cfg.Alphabet), depth, depth-1, dDom, d2, depth)
+	c.Rule = fmt.Sprintf("all histories over %d grouping-policy calls (single, batch, Ex, update, batch update, filtered removal, ClearPolicy, LoadPolicy, SavePolicy) on a 3-name universe with an auto-saving adapter: depth <= %d for the plain manager, depth <= %d for a plain manager installed with SetRoleManager on the empty policy (with Enforce probes), depth <= %d for the domain manager (2 domains), depth <= %d for two role definitions (g, g2; the calls of both, single add/remove from one name only, no SavePolicy); plain and domain histories that leave two or more rules listed end with the listing handed straight back to the batch removal; after every call HasLink over the whole universe, GetRoles, GetUsers and the listed grouping rules are compared with the Lean model and with reachability through the listed rules (spec); a reload that a failing role manager rejects at its 1st..4th link must leave the graph mirroring the listed rules (implementation only); a conditional role definition (g = _, _, (_, _)): all histories of depth <= %d over 12 calls (single / batch add and remove, filtered removal, update, policy batches, ClearPolicy, BuildRoleLinks), live vs rebuilt from the listed rules and vs a plain RBAC model holding the same rules, on the implementation, and link chains around the hierarchy limit plus grouping calls through the enforcer (every other pair of cases on an enforcer whose policy was loaded from an adapter) compared with the Lean model of the conditional managers (case condrm); plus seeded random histories incl. over-long rules; non-trivial = some call changed the graph and some call was refused; distinct = whole history", len(cfg.Alphabet), depth, depth-1, dDom, d2, depth)
 	// every history ends with the grouping listing handed straight back to the batch removal
 	// (RemoveGroupingPolicies(GetGroupingPolicy())): no rule and no link may be left
 	handBack := func(gt string, probes []EOp) func(c *Ctx, s *Sess, hist []EOp) {
